@@ -164,25 +164,23 @@ def ob_c(ob):
 
 
 # ---- shared obligation: batch-mate independence of excited states in a mixed batch requires that no molecule gets guess vectors on padded occupied-virtual pairs ----
-from . import C16 as _C16_mod  # noqa: E402
-
-
-@obligation(PID, "e", title="[shared with C16.d] " + [e for e in __import__("engine.ob", fromlist=["REGISTRY"]).REGISTRY["C16"] if e[1] is _C16_mod.ob_d][0][3])
+@obligation(PID, "e", title='[shared with C16.d] Davidson start space of a mixed batch: every molecule gets at most as many unit guess vectors as it has occupied-virtual pairs (no guess on padded pairs)')
 def ob_e_shared(ob):
     """batch-mate independence of excited states in a mixed batch requires that no molecule gets guess vectors on padded occupied-virtual pairs"""
+    from . import C16 as _m  # imported lazily: the harness modules share obligations in both directions
+
     ob.note("this obligation is the one registered as C16.d; it is also decided here because batch-mate independence of excited states in a mixed batch requires that no molecule gets guess vectors on padded occupied-virtual pairs")
-    _C16_mod.ob_d(ob)
+    _m.ob_d(ob)
 
 
 # ---- shared obligation: the temperature and kinetic energy of a molecule must not depend on the padding of its batch row ----
-from . import C08 as _C08_mod  # noqa: E402
-
-
-@obligation(PID, "f", title="[shared with C08.d] " + [e for e in __import__("engine.ob", fromlist=["REGISTRY"]).REGISTRY["C08"] if e[1] is _C08_mod.ob_d][0][3])
+@obligation(PID, "f", title="[shared with C08.d] the temperature written for a step is 2 Ek/(k_B n_dof) of that step's velocities with n_dof = 3 N_real_atoms - constraints, per molecule of a padded batch, every engine/damping/COM-removal combination")
 def ob_f_shared(ob):
     """the temperature and kinetic energy of a molecule must not depend on the padding of its batch row"""
+    from . import C08 as _m  # imported lazily: the harness modules share obligations in both directions
+
     ob.note("this obligation is the one registered as C08.d; it is also decided here because the temperature and kinetic energy of a molecule must not depend on the padding of its batch row")
-    _C08_mod.ob_d(ob)
+    _m.ob_d(ob)
 
 
 def _dmap(nsh, nheavy, nh):
